@@ -123,19 +123,50 @@ def class_node(mod, cname):
     return ast.parse(textwrap.dedent(inspect.getsource(cls))).body[0]
 
 
+def resolved_method_asts(cls, name, depth=3, seen=None):
+    """the function `cls.<name>` resolves to through the MRO (inherited template methods included), plus — 1 to 3 levels —
+    the methods of the same object it calls as `self.<hook>(...)`; -> list of FunctionDef nodes"""
+    seen = set() if seen is None else seen
+    fn = None
+    for klass in cls.__mro__:
+        if name in vars(klass):
+            fn = vars(klass)[name]
+            break
+    if fn is None:
+        return []
+    fn = getattr(fn, "__func__", fn)
+    fn = getattr(fn, "fget", fn) or fn
+    if getattr(fn, "__isabstractmethod__", False) or (name, id(fn)) in seen:
+        return []
+    seen.add((name, id(fn)))
+    try:
+        node = ast.parse(textwrap.dedent(inspect.getsource(fn))).body[0]
+    except (OSError, TypeError, SyntaxError):
+        return []
+    out = [node]
+    if depth > 0:
+        for c in ast.walk(node):
+            if isinstance(c, ast.Call) and isinstance(c.func, ast.Attribute) and dotted(c.func.value) == "self":
+                out += resolved_method_asts(cls, c.func.attr, depth - 1, seen)
+    return out
+
+
 def operator_failure_returns():
+    import importlib
+
     rows = []
     for mod, cname in OP_CLASSES:
-        cn = class_node(mod, cname)
-        steps = [n for n in cn.body if isinstance(n, ast.FunctionDef) and n.name == "_step"]
-        if len(steps) != 1:
-            raise Unrecognised(f"{cname}._step missing")
+        cls = getattr(importlib.import_module(mod), cname)
+        nodes = resolved_method_asts(cls, "_step")
+        if not nodes:
+            raise Unrecognised(f"{cname}._step cannot be resolved")
         found = []
-        for r in ast.walk(steps[0]):
-            if isinstance(r, ast.Return) and r.value is not None:
-                sv = sentinel_of(r.value)
-                if sv and sv not in found:
-                    found.append(sv)
+        for node in nodes:
+            for r in ast.walk(node):
+                if isinstance(r, ast.Return) and r.value is not None:
+                    sv = sentinel_of(r.value)
+                    if sv and sv not in found:
+                        found.append(sv)
         rows.append((cname, found))
     return rows
 
@@ -158,28 +189,54 @@ def get_defaults(fn, var):
     return out
 
 
+def fn_ast(fn):
+    fn = getattr(fn, "__func__", fn)
+    try:
+        return ast.parse(textwrap.dedent(inspect.getsource(fn))).body[0]
+    except (OSError, TypeError, SyntaxError):
+        return None
+
+
 def option_defaults():
-    """for every class: option keys that have a literal default BOTH in the JSON layer (`data.get(key, d)` in from_json /
-    `_parse_json`) and in the constructor (signature default or `kwargs.get(key, d)` in __init__ of the class or of
-    MCMCOperator) -> rows (class, key, json default, constructor default)"""
+    """for every class: option keys that have a literal default BOTH in the JSON layer (`data.get(key, d)` in from_json and
+    in the `_parse_json` it calls — resolved through the class, wherever that helper lives) and in the constructor
+    (signature default or `kwargs.get(key, d)` in any `__init__` along the MRO) -> rows (class, key, json default,
+    constructor default)"""
     import importlib
 
     rows = []
-    base = class_node("torchtree.inference.mcmc.operator", "MCMCOperator")
-    base_fns = {n.name: n for n in base.body if isinstance(n, ast.FunctionDef)}
     for mod, cname in CTOR_CLASSES:
         if cname == "MCMCOperator":
             continue
-        cn = class_node(mod, cname)
-        fns = {n.name: n for n in cn.body if isinstance(n, ast.FunctionDef)}
-        is_op = any(dotted(b) in ("MCMCOperator",) for b in cn.bases)
+        cls = getattr(importlib.import_module(mod), cname)
         js = {}
-        if "from_json" in fns:
-            js.update(get_defaults(fns["from_json"], "data"))
-            if is_op and "_parse_json" in ast.unparse(fns["from_json"]):
-                js.update(get_defaults(base_fns["_parse_json"], "data"))
+        fj_obj = getattr(cls, "from_json", None)
+        fj = fn_ast(fj_obj)
+        if fj is not None:
+            js.update(get_defaults(fj, "data"))
+            # helpers the dictionary is handed to (a staticmethod of a base class, a module function, ...): resolved through
+            # the globals of from_json / the class, read with THEIR name for the dictionary
+            glob = getattr(getattr(fj_obj, "__func__", fj_obj), "__globals__", {})
+            for c in ast.walk(fj):
+                if isinstance(c, ast.Call) and c.args and dotted(c.args[0]) == "data" and dotted(c.func):
+                    parts = dotted(c.func).split(".")
+                    obj = cls if parts[0] in ("cls", "self") else glob.get(parts[0])
+                    for a_ in parts[1:]:
+                        obj = getattr(obj, a_, None) if obj is not None else None
+                    if obj is None or not callable(obj) or parts[-1] in ("get", "process_object", "process_objects"):
+                        continue
+                    h = fn_ast(obj)
+                    if h is not None and h.args.args:
+                        first = h.args.args[0].arg if h.args.args[0].arg not in ("self", "cls") else (h.args.args[1].arg if len(h.args.args) > 1 else "data")
+                        for k, v in get_defaults(h, first).items():
+                            js.setdefault(k, v)
         ct = {}
-        for fn in ([fns["__init__"]] if "__init__" in fns else []) + ([base_fns["__init__"]] if is_op else []):
+        for klass in cls.__mro__:
+            if "__init__" not in vars(klass) or klass is object:
+                continue
+            fn = fn_ast(vars(klass)["__init__"])
+            if fn is None:
+                continue
             args = fn.args.args
             dfl = [None] * (len(args) - len(fn.args.defaults)) + list(fn.args.defaults)
             for a, d in zip(args, dfl):
